@@ -90,16 +90,16 @@ Definition update_index (logged : bool) (o e : nat) (spec : list nat) (prev new 
       let w1 := if newN then [] else [(LIdx e spec new, CObj (Some o))] in
       let u1 := if newN then [] else [UW (LIdx e spec new) (CObj None)] in
       if prevN then
-        (if logged then block w1 u1 else (writes w1 ;;; taint_if (negb (is_empty w1)) TSetIdx))
+        (if logged then block w1 u1 else unlogged_writes TSetIdx w1)
       else
         match g_idx s e spec prev with
         | Some o3 =>
             if Nat.eqb o3 o then
               let w := w1 ++ [(LIdx e spec prev, CObj None)] in
               let u := u1 ++ [UW (LIdx e spec prev) (CObj (Some o))] in
-              if logged then block w u else (writes w ;;; add_taint TSetIdx)
+              if logged then block w u else unlogged_writes TSetIdx w
             else add_taint TInconsistent ;;; writes (w1 ++ [(LIdx e spec prev, CObj None)])      (* `del` removes somebody else's entry *)
-        | None => writes w1 ;;; add_taint TInconsistent ;;; fail EKey                            (* del cache_index[old]: KeyError *)
+        | None => add_taint TInconsistent ;;; writes w1 ;;; fail EKey                            (* del cache_index[old]: KeyError *)
         end
   end.
 
@@ -216,7 +216,7 @@ Definition update_reverse (del : oid -> M unit) (o e a : nat) (old new : value) 
 (* ------------------------------------------------------------------------------------------------ Set.__set__ *)
 (* the bookkeeping after the try block (never undone).  added/removed are updated exactly as the code does, including the
    stale local `removed` after setdata.removed has been rebound *)
-Definition set_tail (o e a : nat) (newl to_add to_remove : list oid) : M unit :=
+Definition set_tail (direct : bool) (o e a : nat) (newl to_add to_remove : list oid) : M unit :=
   s <- get ;;
   let n := g_next s in
   let A := members s (LAdded o a) in
@@ -231,7 +231,8 @@ Definition set_tail (o e a : nat) (newl to_add to_remove : list oid) : M unit :=
   let Rfin := if is_empty to_remove then Rcur
               else if is_empty R then to_remove'
               else if rebound then Rcur else union R to_remove' in
-  writes (set_writes (LItem o a) n newl ++ set_writes (LAdded o a) n Afin ++ set_writes (LRemoved o a) n Rfin ++ [(LMod e a o, CBool true)]).
+  (if direct then writes else unlogged_writes TSetReverse)
+    (set_writes (LItem o a) n newl ++ set_writes (LAdded o a) n Afin ++ set_writes (LRemoved o a) n Rfin ++ [(LMod e a o, CBool true)]).
 
 Definition set_set (del : oid -> M unit) (direct : bool) (o e a : nat) (newl : list oid) : M unit :=
   s <- get ;;
@@ -248,8 +249,7 @@ Definition set_set (del : oid -> M unit) (direct : bool) (o e a : nat) (newl : l
    | _ => (if a_cascade at_ then iterM del to_remove else iterM (fun x => attr_set_rev x ra VNone) to_remove) ;;;
           iterM (fun x => attr_set_rev x ra (VRef o)) to_add
    end) ;;;
-  taint_if (negb direct) TSetReverse ;;;
-  set_tail o e a newl to_add to_remove.
+  set_tail direct o e a newl to_add to_remove.
 
 (* ------------------------------------------------------------------------------------------------ Entity._delete_ *)
 Definition uact_safe (wl : list loc) (u : uact) : bool :=
@@ -368,11 +368,11 @@ Definition is_set_attr (at_ : attr) : bool := match a_kind at_ with KSet => true
 Definition has_reverse (at_ : attr) : bool := match a_kind at_ with KRef | KSet => true | _ => false end.
 
 (* status / wbits / objects_to_save part shared by the plain path of Attribute.__set__ and by Entity.set: returns the writes *)
-Definition bits_writes (s : state) (o : oid) (mask : N) : option (list (loc * cell)) :=
+Definition bits_writes (force : bool) (s : state) (o : oid) (mask : N) : option (list (loc * cell)) :=
   match g_wbits s o with
   | None => Some []
   | Some w =>
-      if N.eqb mask 0 then Some [] else
+      if N.eqb mask 0 && negb force then Some [] else     (* Attribute.__set__ tests `and bit`; Entity.set does not *)
       let wb := [(LWbits o, CBits (Some (N.lor w mask)))] in
       if status_eqb (g_status s o) SModified then Some wb
       else match g_status s o, g_savepos s o with
@@ -397,7 +397,7 @@ Definition op_set (o a : nat) (x : arg) : M unit :=
     v <- validate at_ x ;;
     let old := g_val s o a in
     if negb (has_reverse at_) && negb (part_of_unique en a at_) then
-      match bits_writes s o (if a_hasbit at_ then bit_of a else 0%N) with
+      match bits_writes false s o (if a_hasbit at_ then bit_of a else 0%N) with
       | Some w => writes (w ++ [(LVal o a, CVal v)])
       | None => add_taint TInconsistent ;;; fail EAssert
       end
@@ -485,8 +485,8 @@ Definition op_setmany (o : nat) (kw : list (nat * arg)) : M unit :=
   if is_empty avdict && is_empty colls then ret tt else
   (if is_empty avdict then ret tt else
      let mask := fold_left (fun m p => if a_hasbit (get_attr sch e (fst p)) then N.lor m (bit_of (fst p)) else m) avdict 0%N in
-     match bits_writes s o mask with
-     | Some w => writes w ;;; taint_if (existsb (fun lc => negb (cell_eqb (view s (fst lc)) (snd lc))) w) TSetBits
+     match bits_writes true s o mask with
+     | Some w => unlogged_writes TSetBits w
      | None => add_taint TInconsistent ;;; fail EAssert
      end) ;;;
   if is_empty colls && negb (existsb (fun p => let at_ := get_attr sch e (fst p) in has_reverse at_ || part_of_unique en (fst p) at_) avdict)
@@ -534,7 +534,7 @@ Definition op_new (e : nat) (pk : Z) (kw : list (nat * arg)) : M unit :=
   let o := g_next s in
   own LNext (CNat (S o)) ;;; own (LCls o) (CNat e) ;;; own (LStatus o) (CStatus SCreated) ;;; own (LWbits o) (CBits None) ;;;
   own (LSavePos o) (CPos None) ;;; own (LVal o 0) (CVal (VInt pk)) ;;;
-  writes [(LIdx e [0] [VInt pk], CObj (Some o))] ;;; add_taint TNewPk ;;;
+  unlogged_writes TNewPk [(LIdx e [0] [VInt pk], CObj (Some o))] ;;;
   (* for attr, val in avdict.items(): entity attribute order, collections at their own position *)
   iterM (fun j => let at_ := get_attr sch e j in
                   match a_kind at_ with
